@@ -13,14 +13,10 @@ MANIFEST = dict(
     note="trusted: Lean kernel (+propext, Classical.choice, Quot.sound), hand-written model validated by the "
          "h_range correspondence (grammar-generated Range headers x lengths x chunk layouts, validator "
          "neighbourhoods, timestamp sweeps incl. libc gmtime/timegm), limits/boundary regenerated from "
-         "http_range.c each run; last-byte-pos >= 2^63-1 and suffix-length >= 2^63 are dropped by the code "
-         "as invalid (documented deviation, see c15_overflow_last_pos_dropped)",
+         "http_range.c each run; numbers of any magnitude are covered (strtoll clamp proved harmless, see "
+         "c15_overflow_numbers_clamped)",
     tech="Lean 4 proof over hand-written model + differential correspondence (in-process C harness)",
     ref="6/C15")
-
-import collections
-DEVIATION = collections.Counter()
-DEVIATION_SAMPLES = []
 
 HARNESS = "h_range"
 MODEL = "range"
@@ -163,18 +159,18 @@ def ref_range_specs(h):
 
 
 def resolve(spec, n):
-    """resolved (first, last) of a satisfiable spec for length n, else None; and whether the
-    spec carries a number the code's strtoll clamps (documented deviation: treated as invalid)"""
+    """resolved (first, last) of a satisfiable spec for length n, else None.  Numbers of any
+    magnitude: RFC 9110 14.1.1 requires recipients to cope with large decimal numerals; a
+    last-pos >= n means "to the end", a suffix-length >= n means "everything".  The second
+    component (formerly: number clamped by strtoll, either answer accepted) is always False."""
     kind, a, b = spec
     if kind == "suffix":
-        over = a >= I63
         if a == 0:
-            return None, over
-        return (max(n - a, 0), n - 1), over
-    over = b is not None and b >= I63 - 1
+            return None, False
+        return (max(n - a, 0), n - 1), False
     if a >= n:
-        return None, over
-    return (a, n - 1 if b is None else min(b, n - 1)), over
+        return None, False
+    return (a, n - 1 if b is None else min(b, n - 1)), False
 
 
 def parse_parts(status_ct, cr, body, n):
@@ -295,10 +291,6 @@ def oracle_rng(t, out):
     if status == 416:
         if sat:
             return "416 although a requested range is satisfiable [%d-%d]" % sat[0]
-        if maybe:
-            DEVIATION["clamped-416"] += 1   # only clamped numbers: documented deviation
-            if len(DEVIATION_SAMPLES) < 3:
-                DEVIATION_SAMPLES.append("%r on %d bytes -> 416" % (rg, n))
         return None
     # 206
     if not sat and not maybe:
@@ -945,10 +937,6 @@ def run(ctx):
     ctx.differential("date(http_date_time_to_str)", [exe], MODEL, fmt, oracle, classify)
     ctx.differential("date(parse three formats, if-modified-since)", [exe], MODEL, parse, oracle, classify)
     ctx.differential("libc(gmtime_r/timegm vs civil-date model)", [exe], MODEL, misc, oracle, classify)
-    if DEVIATION["clamped-416"]:
-        ctx.notes.append("documented deviation from RFC 9110 14.1.2 observed %d times (not counted as a violation): "
-                         "a satisfiable first-pos with last-pos >= 2^63-1 (or suffix-length >= 2^63) is answered 416, "
-                         "e.g. %s" % (DEVIATION["clamped-416"], "; ".join(DEVIATION_SAMPLES)))
     ctx.exhaustive = False
     ctx.rule = ("cases: Range headers generated from the RFC 9110 byte-range grammar with boundary numbers x "
                 "representation lengths x chunk layouts (mem/file/mixed) x request preconditions; validator "
@@ -957,8 +945,6 @@ def run(ctx):
                 "tuples observed")
     ctx.assumptions += [
         "header values are NUL-free (NUL is rejected by the request parser: C01)",
-        "last-byte-pos >= 2^63-1 and suffix-length >= 2^63 are treated by the code as an invalid range-spec "
-        "(strtoll clamp); the oracle accepts either reading for such numbers",
         "RFC 850 two-digit years are resolved within the current century only (year > now+50 -> -100)",
         "libc gmtime_r/timegm/strftime/strtoll behave as the civil-date/decimal model (differentially tested here)",
         "the fixed multipart boundary may occur inside the representation (inherent to the code's fixed boundary); "
